@@ -50,7 +50,7 @@ def decodeWTF8Rune (s : List Nat) : Option (Nat × Nat) :=
   let sz : Nat :=
     if s0 &&& 0xE0 = 0xC0 then 2 else if s0 &&& 0xF0 = 0xE0 then 3 else if s0 &&& 0xF8 = 0xF0 then 4 else 0
   if sz = 0 then some (runeError, 1) else
-  if n < sz then some (runeError, 0) else
+  if n < sz then some (runeError, 1) else
   match s[1]? with
   | none => none
   | some s1 =>
@@ -213,7 +213,8 @@ decreasing_by simp; omega
 
 inductive Scan where
   | runes (cps : List Nat)
-  | stuck (cps : List Nat) -- a non-empty rest decoded with width 0: the Go loop never advances again
+  | stuck (cps : List Nat) -- a non-empty rest decoded with width 0: the Go loop would never advance again
+                           -- (cannot happen since `DecodeWTF8Rune` returns width 1 on a truncated sequence)
   | panic
 deriving DecidableEq, Repr
 
